@@ -47,14 +47,25 @@ def tolerance(prog) -> float:
     return 1e-4 if any(n["op"] in ("Gelu", "DFT") for n in prog["nodes"]) else 1e-6
 
 
+def differs(prog, got, want):
+    """None when the runtime's value is the dataflow's value (bit-level for `special` programs)."""
+    if prog.get("special"):
+        return L.same_bits(got, want)
+    return L.same_value(got, want, tolerance(prog))
+
+
 def run_case(prog, style: str, rseed: int, bindings, specs=None, use_reference=False):
     """Write `prog` in Python (`style`, `rseed`), build it, and judge the result with the model-free
     oracle.  Returns a dict: fail = (key, what) | None; model, emission, problems, realised, stats."""
     out = {"fail": None, "model": None, "emission": None, "problems": [], "realised": None,
            "compared": 0, "wild": 0, "notes": []}
     rng = random.Random(rseed)
+    import warnings
+
     try:
-        R = L.realise(prog, rng, style)
+        with warnings.catch_warnings():
+            warnings.simplefilter("ignore")
+            R = L.realise(prog, rng, style, twins=bool(prog.get("special")))
     except L.HarnessError as e:
         out["problems"] = [f"harness: {e}"]
         return out
@@ -92,7 +103,7 @@ def run_case(prog, style: str, rseed: int, bindings, specs=None, use_reference=F
         ok_ref = True
         for b, (want, ws) in zip(bindings, specs):
             s2, got = L.run_reference(model, {f"in{k}": v for k, v in b.items()})
-            if s2 != "ok" or any(L.same_value(g, want[oi], tolerance(prog)) for g, oi in zip(got, pos)):
+            if s2 != "ok" or any(differs(prog, g, want[oi]) for g, oi in zip(got, pos)):
                 ok_ref = False
         if ok_ref:
             out["notes"].append("runtime-unsupported: " + sess[:120])
@@ -110,13 +121,13 @@ def run_case(prog, style: str, rseed: int, bindings, specs=None, use_reference=F
             # the model and gets the dataflow's values (then the defect is the runtime's, e.g. its
             # mandatory duplicate-Cast removal losing implicit inputs of bodies)
             s3, got2 = L.run_reference(model, feeds)
-            if s3 == "ok" and not any(L.same_value(g, want[oi], tolerance(prog)) for g, oi in zip(got2, pos)):
+            if s3 == "ok" and not any(differs(prog, g, want[oi]) for g, oi in zip(got2, pos)):
                 out["notes"].append("runtime-unsupported: " + got[:100])
                 continue
             out["fail"] = ("runtime-fails", f"onnxruntime run: {got[:200]}")
             return out
         for g, oi in zip(got, pos):
-            d = L.same_value(g, want[oi], tolerance(prog))
+            d = differs(prog, g, want[oi])
             if d:
                 out["fail"] = ("wrong-value", f"output out{oi} on binding {bi}: onnxruntime vs dataflow: {d[:200]}")
                 return out
@@ -125,7 +136,7 @@ def run_case(prog, style: str, rseed: int, bindings, specs=None, use_reference=F
             s3, got2 = L.run_reference(model, feeds)
             if s3 == "ok":
                 for g, oi in zip(got2, pos):
-                    if L.same_value(g, want[oi], tolerance(prog)):
+                    if differs(prog, g, want[oi]):
                         out["notes"].append("onnx.reference differs (secondary runtime only)")
             else:
                 out["notes"].append("onnx.reference could not run the model: " + got2[:80])
@@ -194,7 +205,7 @@ def run(ck: core.Check):
         ck.leanchecker(["SpoxModel.Props.C01"])
 
     rng = ck.rng
-    n_random = ck.pick(900, 8000)
+    n_random = ck.pick(800, 8000)
     n_styles = ck.pick(3, 4)
     n_bind = 3
     skel_uses = ck.pick(3, 6)
@@ -210,6 +221,10 @@ def run(ck: core.Check):
     for prog, tag in L.skeleton4_programs(pairs=True):
         programs.append((prog, "skeleton4:" + tag))
     n_skel = len(programs)
+    for _ in range(ck.pick(60, 600)):  # scalar-attribute operators with unusual values, twins constructed first
+        programs.append((L.gen_attr_program(random.Random(rng.getrandbits(48))), "attr"))
+    for prog, tag in L.deep_programs(random.Random(rng.getrandbits(48)), ck.pick(1, 3)):
+        programs.append((prog, "deep:" + tag))
     for i in range(n_random):
         size = rng.choice([8, 12, 16, 20, 26, 32, 40])
         # one opset per program: 17 / 18 may contain Loop and (17) explicit-size Split; at 19-21 Loop outputs
@@ -239,7 +254,11 @@ def run(ck: core.Check):
         hist_depth[d] += 1
         for n in prog["nodes"]:
             hist_ops[n["op"]] += 1
-        if origin.startswith("skeleton4"):
+        if origin.startswith("deep"):
+            styles = ["eager"]  # (the harness itself must not recurse along the chain)
+        elif origin == "attr":
+            styles = ["lazy", "eager"]
+        elif origin.startswith("skeleton4"):
             styles = ["lazy", "eager"] if not ck.thorough else skel_styles
         else:
             styles = skel_styles if origin.startswith("skeleton") else rng.sample(L.STYLES, n_styles)
@@ -304,6 +323,11 @@ def run(ck: core.Check):
                             stats["created_outside_emitted_inside_body"] += 1
                 stats["unrequested_constructions"] += R.extras
                 stats["created_inside_callbacks"] += sum(1 for k, dd in R.created_in.items() if dd > 0 and prog["nodes"][k]["op"] != "arg")
+            if origin.startswith("deep") and not (ck.thorough and len(prog["nodes"]) < 1700):
+                # the model's list lookups are O(n) each: validating a 3 000-node emission costs O(n^3) in the
+                # driver; deep programs are judged by the oracle (quick) and the smaller ones by Lean (thorough)
+                stats["deep_programs_built_and_run"] += 1
+                continue
             nm = len(L.main_args(prog))
             vals = [[rng.randrange(P) for _ in range(nm)] for _ in range(2)]
             sd = rng.randrange(1, 1000)
@@ -408,6 +432,7 @@ def run(ck: core.Check):
                 "emitted_nodes": stats["emitted_nodes"],
                 "emitted_graphs": stats["emitted_graphs"],
                 "unrequested_constructions": stats["unrequested_constructions"],
+                "deep_programs_built_and_run": stats["deep_programs_built_and_run"],
                 "values_created_inside_callbacks": stats["created_inside_callbacks"],
                 "created_in_callback_emitted_further_out": stats["created_in_callback_emitted_further_out"],
                 "created_outside_emitted_inside_body": stats["created_outside_emitted_inside_body"],
